@@ -84,9 +84,9 @@ func sameInts(a, b []int) bool {
 // wantIDs: the id sets the property's reading permits (accept[0] = the strict reading)
 //
 // latitude (written here because the property leaves it open):
-//   * `alt`  — Not over a multi-member AND unit none of whose members is a generated comparison may be the negation
+//   - `alt`  — Not over a multi-member AND unit none of whose members is a generated comparison may be the negation
 //     of the whole unit (gorm writes NOT (a AND b)) instead of member-wise;
-//   * the primary key of the model value is one more AND unit: either the last unit of the flat left-to-right
+//   - the primary key of the model value is one more AND unit: either the last unit of the flat left-to-right
 //     combination (so it binds to the last OR-run under standard precedence), or a conjunct of the whole chain
 //     (what gorm's soft-delete regrouping yields) — both readings are accepted.
 func wantIDs(w *wWorld, ch *wChain, rows []wRow, soft bool, unscoped bool, pk int) (accept [][]int, hasCond bool) {
@@ -192,6 +192,53 @@ func c02RunFinisher(db *gorm.DB, ch *wChain, soft bool, fin string, pk int, rows
 			ids = append(ids, int(o.ID))
 		}
 		return ids, err
+	case "first-inline", "delete-inline":
+		// the last unit as the inline condition of First / Delete (for a key list: First(&x, ids) / Delete(&T{}, ids))
+		last := ch.Steps[len(ch.Steps)-1]
+		head := &wChain{Steps: ch.Steps[:len(ch.Steps)-1]}
+		q, args := last.Form.Go(base)
+		conds := append([]interface{}{q}, args...)
+		if fin == "first-inline" {
+			var res *gorm.DB
+			var id uint
+			if soft {
+				var o WSoft
+				res = head.apply(base).First(&o, conds...)
+				id = o.ID
+			} else {
+				var o WPlain
+				res = head.apply(base).First(&o, conds...)
+				id = o.ID
+			}
+			if res.Error == gorm.ErrRecordNotFound {
+				return []int{}, nil
+			}
+			return []int{int(id)}, res.Error
+		}
+		tx := base.Begin()
+		defer tx.Rollback()
+		if err := head.apply(tx).Delete(modelOf(soft), conds...).Error; err != nil {
+			return nil, err
+		}
+		type rec struct {
+			ID        int
+			DeletedAt *string
+		}
+		var after []rec
+		if e := tx.Session(&gorm.Session{NewDB: true}).Unscoped().Table(tableOf(soft)).Order("id").Find(&after).Error; e != nil {
+			return nil, e
+		}
+		am := map[int]rec{}
+		for _, a := range after {
+			am[a.ID] = a
+		}
+		ids := []int{}
+		for _, r := range rows {
+			if a, ok := am[r.ID]; !ok || (soft && !r.Deleted && a.DeletedAt != nil) {
+				ids = append(ids, r.ID)
+			}
+		}
+		return ids, nil
 	case "count":
 		var n int64
 		err := ch.apply(base.Model(modelOf(soft))).Count(&n).Error
@@ -468,11 +515,12 @@ func c02Chains(r *Result, rng *rand.Rand, n int, softOnly bool) {
 		var ask [][]interface{}
 		for _, j := range jobs[lo:hi] {
 			g := c02Gen(j.seed, j.soft, r.Property)
-			ask = append(ask, g.ask)
+			ask = append(ask, g.ask, g.askPK)
 		}
 		if res, err := AskLean(ask); err == nil {
 			for i, j := range jobs[lo:hi] {
-				c02Cache[fmt.Sprint(r.Property, j.seed, j.soft)] = res[i]
+				c02Cache[fmt.Sprint(r.Property, j.seed, j.soft)] = res[2*i]
+				c02Cache[fmt.Sprint(r.Property, j.seed, j.soft, "pk")] = res[2*i+1]
 			}
 		}
 		for _, j := range jobs[lo:hi] {
@@ -481,6 +529,7 @@ func c02Chains(r *Result, rng *rand.Rand, n int, softOnly bool) {
 			}
 			c02One(r, j.seed, j.soft)
 			delete(c02Cache, fmt.Sprint(r.Property, j.seed, j.soft))
+			delete(c02Cache, fmt.Sprint(r.Property, j.seed, j.soft, "pk"))
 		}
 	}
 }
@@ -488,11 +537,13 @@ func c02Chains(r *Result, rng *rand.Rand, n int, softOnly bool) {
 var c02Cache = map[string]json.RawMessage{}
 
 type c02Generated struct {
-	rng    *rand.Rand
-	w      *wWorld
-	rows   []wRow
-	ch     *wChain
-	ask    []interface{}
+	rng   *rand.Rand
+	w     *wWorld
+	rows  []wRow
+	ch    *wChain
+	ask   []interface{}
+	pk    int           // the key of the model value used by the …pk finishers
+	askPK []interface{} // the same chain followed by the key condition (the expression list those finishers render)
 }
 
 // c02Gen: everything about one case that is determined by its seed, and the question put to the Lean model
@@ -520,14 +571,19 @@ func c02Gen(seedMark int64, soft bool, prop string) *c02Generated {
 		}
 		envs[i] = e
 	}
-	return &c02Generated{rng: rng, w: w, rows: rows, ch: ch, ask: []interface{}{"chain.render", ch.json(), []interface{}{false, filter}, envs}}
+	pk := rows[rng.Intn(len(rows))].ID
+	pkAtom := &wAtom{Col: "`id`", Kind: "eq", Val: "scalar", ID: w.id(wPred{Col: "id", Op: "eq", Vals: []int{pk}})}
+	chPK := &wChain{Steps: append(append([]wStep{}, ch.Steps...), wStep{Op: "where", Form: &wForm{Kind: "col", Atoms: []*wAtom{pkAtom}}})}
+	return &c02Generated{rng: rng, w: w, rows: rows, ch: ch, pk: pk,
+		ask:   []interface{}{"chain.render", ch.json(), []interface{}{false, filter}, envs},
+		askPK: []interface{}{"chain.render", chPK.json(), []interface{}{false, filter}, []interface{}{}}}
 }
 
 // c02One generates and judges one chain from its own PRNG (so a stored seed replays it exactly)
 func c02One(r *Result, seedMark int64, soft bool) {
 	prop := r.Property
 	g := c02Gen(seedMark, soft, prop)
-	rng, w, rows, ch := g.rng, g.w, g.rows, g.ch
+	w, rows, ch := g.w, g.rows, g.ch
 	db, _, sqlDB := openW(rows, soft, nil)
 	defer sqlDB.Close()
 	rowStr := make([]string, len(rows))
@@ -543,13 +599,24 @@ func c02One(r *Result, seedMark int64, soft bool) {
 	// --- correspondence: WHERE text of the real DryRun statement vs the Lean model; SQLite's selection vs Lean sqlEval
 	dry := ch.apply(db.Session(&gorm.Session{DryRun: true})).Find(reflectSlice(soft))
 	realWhere := whereOf(dry.Statement.SQL.String())
-	var flags c02Flags
+	var flags, flagsPK c02Flags
 	var res []json.RawMessage
 	var err error
 	if raw, ok := c02Cache[fmt.Sprint(prop, seedMark, soft)]; ok {
-		res = []json.RawMessage{raw}
+		res = []json.RawMessage{raw, c02Cache[fmt.Sprint(prop, seedMark, soft, "pk")]}
 	} else {
-		res, err = AskLean([][]interface{}{g.ask})
+		res, err = AskLean([][]interface{}{g.ask, g.askPK})
+	}
+	if err == nil && len(res) > 1 {
+		// the listed patterns are judged on the expression list a finisher really renders: for the …pk finishers that is
+		// the chain's units followed by the key condition (a raw unit that is alone in the chain gets an operand next to it)
+		var o struct {
+			Sound    bool `json:"sound"`
+			MixedNot bool `json:"mixedNot"`
+		}
+		if json.Unmarshal(res[1], &o) == nil {
+			flagsPK = c02Flags{Sound: o.Sound, MixedNot: o.MixedNot, OK: true}
+		}
 	}
 	realIDs, ferr := c02RunFinisher(db, ch, soft, "find", 0, rows)
 	if err != nil {
@@ -593,9 +660,12 @@ func c02One(r *Result, seedMark int64, soft bool) {
 	// --- e2e: every finisher against the property's reading
 	fins := []string{"find", "count", "pluck", "update", "delete"}
 	if len(ch.Steps) > 0 && ch.Steps[len(ch.Steps)-1].Op == "where" {
-		fins = append(fins, "inline")
+		fins = append(fins, "inline", "first-inline")
+		if ch.hasCond() && ch.Steps[len(ch.Steps)-1].Form.Kind != "empty" {
+			fins = append(fins, "delete-inline")
+		}
 	}
-	pk := rows[rng.Intn(len(rows))].ID
+	pk := g.pk
 	// the model value's key: through Model(..), through the finisher's value, through both, for reads and writes
 	fins = append(fins, "updatepk", "deletepk", "deletepk-model", "deletepk-both", "deletepk-same", "updatespk-value", "updatecolumnpk",
 		"firstpk", "takepk", "findpk")
@@ -624,7 +694,11 @@ func c02One(r *Result, seedMark int64, soft bool) {
 		if err != nil {
 			// a condition that the database rejects is a failure of the chain to express its units
 			r.H("rows.error", trunc(err.Error(), 40))
-			id, isListed := c02Classify(flags)
+			fl := flags
+			if usePK != 0 {
+				fl = flagsPK
+			}
+			id, isListed := c02Classify(fl)
 			if id != "" && isListed {
 				r.KnownFinding(id, "statement rejected by the database: "+trunc(err.Error(), 60))
 				continue
@@ -654,7 +728,7 @@ func c02One(r *Result, seedMark int64, soft bool) {
 		if accepted(got, accept, fin == "count") {
 			continue
 		}
-		if fin == "firstpk" || fin == "takepk" || fin == "findpk" {
+		if fin == "firstpk" || fin == "takepk" || fin == "findpk" || fin == "first-inline" {
 			// one row comes back: it must be one the reading permits (none when that set is empty)
 			ok := false
 			for _, a := range accept {
@@ -666,7 +740,11 @@ func c02One(r *Result, seedMark int64, soft bool) {
 				continue
 			}
 		}
-		id, isListed := c02Classify(flags)
+		fl := flags
+		if usePK != 0 {
+			fl = flagsPK
+		}
+		id, isListed := c02Classify(fl)
 		if id != "" && isListed {
 			r.KnownFinding(id, "rows differ from the logical combination of the units")
 			continue
@@ -865,7 +943,9 @@ func c02Composite(r *Result, seed int64) {
 		}
 		// is the chain one of the listed patterns (decided by the Lean model's predicates on the chain's expression list)?
 		var flags c02Flags
-		if res, e := AskLean([][]interface{}{{"chain.render", ch.json(), []interface{}{false, nil}, []interface{}{}}}); e == nil {
+		pkAtom := &wAtom{Col: "`id`", Kind: "eq", Val: "scalar", ID: w.id(wPred{Col: "id", Op: "eq", Vals: []int{target.ID}})}
+		chPK := &wChain{Steps: append(append([]wStep{}, ch.Steps...), wStep{Op: "where", Form: &wForm{Kind: "col", Atoms: []*wAtom{pkAtom}}})}
+		if res, e := AskLean([][]interface{}{{"chain.render", chPK.json(), []interface{}{false, nil}, []interface{}{}}}); e == nil {
 			var out struct {
 				Sound    bool `json:"sound"`
 				MixedNot bool `json:"mixedNot"`
